@@ -376,6 +376,19 @@ class Verdicts:
             return 0
         d = os.path.join(REPLAYS, self.prop)
         os.makedirs(d, exist_ok=True)
+        # one replay file per distinct key first, so that every kind of violation is written out
+        seen, first, rest = set(), [], []
+        for v in self.violations:
+            k = json.dumps(v["key"], sort_keys=True, default=str)
+            (rest if k in seen else first).append(v)
+            seen.add(k)
+        counts = {}
+        for v in self.violations:
+            k = json.dumps(v["key"], sort_keys=True, default=str)
+            counts[k] = counts.get(k, 0) + 1
+        for k, n in sorted(counts.items(), key=lambda x: -x[1])[:40]:
+            log("[violations] %6d x %s" % (n, k))
+        self.violations = first + rest
         for i, v in enumerate(self.violations[:20]):
             h = hashlib.sha1(json.dumps(v, sort_keys=True, default=str).encode()).hexdigest()[:12]
             path = os.path.join(d, "%s.json" % h)
